@@ -130,7 +130,7 @@ Definition var_is_single (v : var) : bool :=
 (* transaction state                                                                    *)
 (* ------------------------------------------------------------------------------------ *)
 Record mdata := { md_var : bytes; md_key : bytes; md_value : bytes; md_msg : bytes; md_data : bytes }.
-Record mrule := { mr_id : Z; mr_msg : bytes; mr_data : bytes; mr_mds : list mdata }.
+Record mrule := { mr_id : Z; mr_sev : option Z; mr_msg : bytes; mr_data : bytes; mr_mds : list mdata }.
 
 (* ghost trace = the debug-log lines of the real engine that report action execution *)
 Inductive event :=
@@ -561,7 +561,7 @@ Section Engine.
     let '(m, d) := first_msg mds in
     {| s_tx := s_tx s; s_rule := s_rule s; s_mv := s_mv s; s_mvn := s_mvn s; s_mvs := s_mvs s; s_hs := hs;
        s_capture := s_capture s; s_interrupted := s_interrupted s;
-       s_matched := {| mr_id := l_id l; mr_msg := m; mr_data := d; mr_mds := mds |} :: s_matched s;
+       s_matched := {| mr_id := l_id l; mr_sev := l_sev l; mr_msg := m; mr_data := d; mr_mds := mds |} :: s_matched s;
        s_trace := s_trace s |}.
 
   Definition set_first_md (e : env) (l : link) (s : st) (mds : list mdata) : list mdata :=
@@ -573,23 +573,18 @@ Section Engine.
          md_data := match l_logdata l with Some x => macro_expand e s x | None => md_data m end |} :: r
     end.
 
-  (* Rule.Evaluate for a top-level rule *)
+  (* Rule.Evaluate for a top-level rule: the starter is level 0 of the walk; flow/disruptive
+     actions, the postponed msg/logdata expansion and MatchRule only when every link matched *)
   Definition eval_rule (e : env) (r : rule) (s : st) : st :=
     let h := r_head r in
-    let '(s1, mds) := eval_link e h 0 s in
-    match mds with
-    | [] => s1
-    | _ =>
-      let '(s2, rest) := eval_chain e (r_chain r) 1 s1 in
-      match rest with
-      | None => s2
-      | Some more =>
-        let all := mds ++ more in
-        let all := if l_haschain h || (match l_op h with None => true | _ => false end)
-                   then set_first_md e h s2 all else all in
-        let s3 := run_flow_disr (link_rid h) (l_actions h) s2 in
-        if (l_id h =? 0)%Z then s3 else match_rule h all s3
-      end
+    let '(s2, res) := eval_chain e (h :: r_chain r) 0 s in
+    match res with
+    | None => s2
+    | Some all =>
+      let all := if l_haschain h || (match l_op h with None => true | _ => false end)
+                 then set_first_md e h s2 all else all in
+      let s3 := run_flow_disr (link_rid h) (l_actions h) s2 in
+      if (l_id h =? 0)%Z then s3 else match_rule h all s3
     end.
 
   (* RuleGroup.Eval for one phase (no removals, skips, allow: not generated) *)
@@ -621,6 +616,10 @@ Arguments l_id {opid}. Arguments l_logid {opid}. Arguments l_parent {opid}. Argu
 Arguments l_tfs {opid}. Arguments l_multi {opid}. Arguments l_capture {opid}. Arguments l_haschain {opid}.
 Arguments l_msg {opid}. Arguments l_logdata {opid}. Arguments l_sev {opid}. Arguments l_actions {opid}.
 Arguments r_phase {opid}. Arguments r_head {opid}. Arguments r_chain {opid}.
+Arguments on_match {opid}. Arguments link_rid {opid}. Arguments eval_cands {opid}. Arguments target_cands {opid}.
+Arguments link_prologue {opid}. Arguments eval_link {opid}. Arguments eval_targets {opid}. Arguments eval_chain {opid}.
+Arguments match_rule {opid}. Arguments set_first_md {opid}. Arguments eval_rule {opid}. Arguments eval_rules {opid}.
+Arguments eval_phase {opid}. Arguments eval_tx {opid}. Arguments link_args {opid}. Arguments mk_md {opid}.
 
 (* ------------------------------------------------------------------------------------ *)
 (* the concrete operators of the correspondence run                                     *)
